@@ -382,6 +382,11 @@ def steps_for(info, cand, tier):
     S.append(mk("mergerefine", "-mergerefine", "mergerefine", writes=True))
     S.append(mk("getconstructpnts", "-getconstructpnts", "getconstructpnts",
                 [["-type", "s", "type", "iptotal"], ["-tolerance", "d", "tol", "0.01"], ["-reftype", "s", "reftype", "classic"]] + ro, of=True, writes=True, out="matrix"))
+    # the same command with binding level limits, with and without user weights (each option combination takes its own branch in the tool)
+    S.append(mk("getconstructpnts+limits", "-gcp", "getconstructpnts", [["-tt", "s", "type", "iptotal"], ["-tol", "d", "tol", "0.01"], ["-rt", "s", "reftype", "classic"]] + ro,
+                [["-lf", "iv", "limits", 1, d, [1, 2][:d]]], of=True, writes=True, out="matrix"))
+    S.append(mk("getconstructpnts+aniso+limits", "-gcp", "getconstructpnts", [["-tt", "s", "type", "iptotal"], ["-tol", "d", "tol", "0.01"], ["-rt", "s", "reftype", "classic"]],
+                [["-af", "iv", "aniso", 1, d, [1, 2][:d]], ["-lf", "iv", "limits", 1, d, [2, 1][:d]]], of=True, writes=True, out="matrix"))
     cx = cand if cand else lp
     if cx and outs > 0 and not info.get("conformal"):   # the points must match grid points exactly; a conformal map makes the round trip inexact
         k = min(2, len(cx) // d)
